@@ -3,6 +3,7 @@ package main
 import (
 	"fmt"
 	"go/token"
+	"sort"
 	"strings"
 
 	"golang.org/x/tools/go/ssa"
@@ -77,8 +78,82 @@ func sliceBackCalls(v ssa.Value) []*ssa.Call {
 	return out
 }
 
+// checkHeaderReaders: the functions the offset code trusts to read a container header's size from the bytes do
+// return the RFC 8949 width for every initial byte: 1 for a count in the initial byte or an indefinite header,
+// 2/3/5/9 for a 1/2/4/8-byte count, and 0 (not such a container) otherwise. All 256 initial bytes are evaluated.
+func (c *Ctx) checkHeaderReaders() {
+	n := 0
+	for _, hr := range []struct {
+		rel, name string
+		idx       int
+		major     int64
+	}{
+		{"ledger/common", "cborArrayInfo", 1, 4}, {"ledger/common", "cborMapInfo", 1, 5},
+		{"ledger/common", "cborArrayHeaderSizeOf", 0, 4}, {"ledger/common", "cborMapHeaderSizeOf", 0, 5},
+		{"cbor", "ArrayInfo", 1, 4}, {"cbor", "MapInfo", 1, 5},
+	} {
+		var fn *ssa.Function
+		if fo := c.FuncObjOpt(hr.rel, hr.name); fo != nil {
+			fn = c.SSAOf(fo)
+		}
+		if fn == nil || len(fn.Params) != 1 || len(fn.Blocks) == 0 {
+			continue
+		}
+		n++
+		key := ssaFuncKey(fn)
+		var wrong []string
+		undec := ""
+		for v := int64(0); v < 256; v++ {
+			want := int64(0)
+			if v>>5 == hr.major {
+				switch ai := v & 31; {
+				case ai <= 23 || ai == 31:
+					want = 1
+				case ai == 24:
+					want = 2
+				case ai == 25:
+					want = 3
+				case ai == 26:
+					want = 5
+				case ai == 27:
+					want = 9
+				}
+			}
+			rs, ok := constResults(fn, hr.idx, map[string]int64{"p0[0]": v, "len(p0)": 16}, 0)
+			if !ok || len(rs) == 0 {
+				undec = fmt.Sprintf("%#x", v)
+				break
+			}
+			good := rs[want]
+			for r := range rs {
+				if r != want && r != 0 {
+					good = false
+				}
+			}
+			if !good {
+				var got []string
+				for r := range rs {
+					got = append(got, fmt.Sprint(r))
+				}
+				sort.Strings(got)
+				wrong = append(wrong, fmt.Sprintf("%#x→%s (RFC 8949: %d)", v, strings.Join(got, "/"), want))
+			}
+		}
+		if undec != "" {
+			c.Undecided("%s: the header width for initial byte %s is not a constant this checker can evaluate", key, undec)
+			continue
+		}
+		if len(wrong) > 6 {
+			wrong = append(wrong[:6], fmt.Sprintf("… %d initial bytes", len(wrong)))
+		}
+		c.Check(len(wrong) == 0, "header-width-table", key, fn.Pos(), "header width 1/2/3/5/9 by additional info for all 256 initial bytes", "the header width read from the bytes is wrong for initial byte "+strings.Join(wrong, ", ")+": every offset computed behind such a header is shifted")
+	}
+	c.Floor("header-width-table", n)
+}
+
 func runC07(c *Ctx) {
 	c.W.buildSSA()
+	c.checkHeaderReaders()
 	nOff := 0
 	nAcc := 0
 	for _, fn := range c.pkgFuncs("ledger/common") {
